@@ -34,6 +34,7 @@ func init() {
 	gens["Src_applymw.v"] = genGoLoopApplyMiddleware
 	gens["Src_ratestore.v"] = genGoLiteRateStore
 	gens["Src_servehttp.v"] = genGoLiteServeHTTP
+	gens["Src_addtarget.v"] = genGoLoopAddTarget
 }
 
 // innerHandler finds the innermost function literal of shape func(c echo.Context) error inside fd.
@@ -1383,4 +1384,22 @@ func genGoLiteServeHTTP(repo string) (string, error) {
 		return "", err
 	}
 	return out + s, nil
+}
+
+func genGoLoopAddTarget(repo string) (string, error) {
+	f, err := parseFile(repo, "middleware/proxy.go")
+	if err != nil {
+		return "", err
+	}
+	fd := findFunc(f, "*commonBalancer", "AddTarget")
+	if fd == nil {
+		return "", fmt.Errorf("commonBalancer.AddTarget not found")
+	}
+	s, err := goliteFunc(fd, "add_target", goliteCfg{loop: true, extern: map[string]bool{}, cells: map[string]bool{},
+		ignore: map[string]bool{"b.mutex.Lock": true, "b.mutex.Unlock": true},
+		pure:   map[string]bool{".Name": true, ".URL": true, "append": true, "len": true}})
+	if err != nil {
+		return "", err
+	}
+	return goloopHeader + "(* middleware/proxy.go: commonBalancer.AddTarget.  b.targets is a list cell (ranged over) and a field (assigned); a target is a\n   value with a Name; append is pure; the mutex is outside the model (the balancer operations are taken as atomic). *)\n" + s, nil
 }
